@@ -54,6 +54,35 @@ def judge(acc, kind, text, seen=None):
         acc.samples.append({"text": short(text, 160), "reference": cl[1], "implementation": b[1]})
 
 
+# hand-written near misses: plausible "extensions" a grammar change could start to accept
+NEAR = [
+    'def e { if f in () { return 1 weighted 1 } }', 'def e { if f in (1,2,) { return 1 weighted 1 } }', 'def e { return 1 weighted 1, }',
+    'def e { return 1 weighted 1; }', 'def e { return 1 }', 'def e { return 1 weighted -1 }', 'def e { return 1 weighted "1" }', 'def e { return 1 weighted 1 2 }',
+    'def e { return x weighted 1 }', 'def e { return (1,2) weighted 1 }', 'def e { return -"a" weighted 1 }', 'def e { return --1 weighted 1 }', 'def e { return - - 1 weighted 1 }',
+    'def e { if f == --1 { return 1 weighted 1 } }', 'def e { if f == -(1) { return 1 weighted 1 } }', 'def e { if f == +1 { return 1 weighted 1 } }',
+    'def e { salt: abc return 1 weighted 1 }', 'def e { salt: 1 return 1 weighted 1 }', 'def e { salt "s" return 1 weighted 1 }', 'def e { salt: "a" salt: "b" return 1 weighted 1 }',
+    'def e { splitters: return 1 weighted 1 }', 'def e { splitters: a, return 1 weighted 1 }', 'def e { splitters: a b return 1 weighted 1 }', 'def e { splitters: "a" return 1 weighted 1 }',
+    'def e { splitters: a salt: "s" return 1 weighted 1 }', 'def e { splitters: a splitters: b return 1 weighted 1 }', 'def "e" { return 1 weighted 1 }', 'def 1 { return 1 weighted 1 }',
+    'def { return 1 weighted 1 }', 'e { return 1 weighted 1 }', 'def e return 1 weighted 1', 'def e { }', 'def e { return 1 weighted 1 } }', 'def e { { return 1 weighted 1 } }',
+    'def e ( return 1 weighted 1 )', 'def e { if f { return 1 weighted 1 } }', 'def e { if not f { return 1 weighted 1 } }', 'def e { if 1 { return 1 weighted 1 } }',
+    'def e { if f == 1 { } }', 'def e { if f == 1 return 1 weighted 1 }', 'def e { if (f == 1 { return 1 weighted 1 } }', 'def e { if f == 1) { return 1 weighted 1 } }',
+    'def e { if f == 1 { return 1 weighted 1 } else }', 'def e { if f == 1 { return 1 weighted 1 } else return 2 weighted 1 }', 'def e { else { return 1 weighted 1 } }',
+    'def e { if f == 1 { return 1 weighted 1 } else { return 2 weighted 1 } else { return 3 weighted 1 } }', 'def e { if f == 1 { return 1 weighted 1 } else { return 2 weighted 1 } else if g == 1 { return 3 weighted 1 } }',
+    'def e { if f == 1 { return 1 weighted 1 } elif g == 1 { return 2 weighted 1 } }', 'def e { if f == 1 { return 1 weighted 1 } elseif g == 1 { return 2 weighted 1 } return 3 weighted 1 }',
+    'def e { if f == 1 { return 1 weighted 1 } return 2 weighted 1 }', 'def e { return 1 weighted 1 return 2 weighted 1 }', 'def e { if f == 1 and { return 1 weighted 1 } }',
+    'def e { if f == 1 && g == 2 { return 1 weighted 1 } }', 'def e { if f == 1 || g == 2 { return 1 weighted 1 } }', 'def e { if f = 1 { return 1 weighted 1 } }', 'def e { if f <> 1 { return 1 weighted 1 } }',
+    'def e { if f === 1 { return 1 weighted 1 } }', 'def e { if f => 1 { return 1 weighted 1 } }', 'def e { if f =< 1 { return 1 weighted 1 } }', 'def e { if f ! = 1 { return 1 weighted 1 } }',
+    'def e { if f > = 1 { return 1 weighted 1 } }', 'def e { if f !in (1) { return 1 weighted 1 } }', 'def e { if f not (1) { return 1 weighted 1 } }', 'def e { if f in not (1) { return 1 weighted 1 } }',
+    'def e { if f is 1 { return 1 weighted 1 } }', 'def e { if f == 1 == 1 { return 1 weighted 1 } }', 'def e { if 1 < f < 3 { return 1 weighted 1 } }', 'def e { if (f == 1) == (g == 1) { return 1 weighted 1 } }',
+    'def e { if f == 1 not and g == 1 { return 1 weighted 1 } }', 'def e { if and f == 1 { return 1 weighted 1 } }', 'def e { if f == (1 { return 1 weighted 1 } }', 'def e { if f == [1,2] { return 1 weighted 1 } }',
+    'def e { if f == 1.5.2 { return 1 weighted 1 } }', 'def e { if f == 1. { return 1 weighted 1 } }', 'def e { if f == .5 { return 1 weighted 1 } }', 'def e { if f == 1e5 { return 1 weighted 1 } }', 'def e { if f == 0x10 { return 1 weighted 1 } }',
+    'def e { if f == 1_000 { return 1 weighted 1 } }', 'def e { if f == "a" "b" { return 1 weighted 1 } }', "def e { if f == 'a\n' { return 1 weighted 1 }\n }".replace("\\n", "\n"), 'def e { if f == "a { return 1 weighted 1 } }',
+    'def e { if f == True { return 1 weighted 1 } else { return None weighted 1 } }', 'def e { if f.g == 1 { return 1 weighted 1 } }', 'def e { if f[0] == 1 { return 1 weighted 1 } }', 'def e { if f(1) == 1 { return 1 weighted 1 } }',
+    'def e { if f + 1 == 2 { return 1 weighted 1 } }', 'def e { if f - 1 == 2 { return 1 weighted 1 } }', 'def e { if f == 1 { return 1 weighted 1 } } def', 'def e { return 1 weighted 1 } def e { return 1 weighted 1 }',
+    'DEF e { return 1 weighted 1 }', 'def e { RETURN 1 weighted 1 }', 'def e { return 1 WEIGHTED 1 }', 'def e { If f == 1 { return 1 weighted 1 } }', 'def e { if f IN (1) { return 1 weighted 1 } }', 'def e { if f == 1 AND g == 2 { return 1 weighted 1 } }',
+    'def e: return 1 weighted 1', 'def e():\n  return 1', 'experiment e { return 1 weighted 1 }', '{ "def": "e" }', '', ' ', '\n', '// only a comment', '/* only a comment */',
+]  # fmt: skip
+
 ALPHA = list("ax1 \n\"'/*-.=><!(){},:;@\\#") + ["if", "in"]  # 26 character classes
 EMBED = ['def e {{ return "a" weighted 1{0}}}', 'def e {{ if x{0}== 1 {{ return 1 weighted 1 }} }}', '{0}def e {{ return 1 weighted 2 }}']
 
@@ -180,6 +209,7 @@ def units(tier):
     m = 3 if tier == "quick" else 4
     for k in range(1, m + 1):
         out += [("lexseq", c, k) for c in ALPHA]
+    out.append(("texts", [("near-miss", t) for t in NEAR]))
     texts, cells = lrcell_texts()
     out += [("texts", texts[i : i + 400]) for i in range(0, len(texts), 400)]
     return out, cells
